@@ -37,6 +37,7 @@ inductive StopOp where
   | returnIfNotOwner   -- `if self._owner_process_pid != os.getpid(): return` (enqueue only)
   | putSentinel        -- `self._queue.put(None)`             (enqueue only)
   | joinWorker         -- `self._thread.join()`               (enqueue only)
+  | joinWorkerTimeout  -- `self._thread.join(<timeout>)`: returns although the worker may still be busy
   | closeQueue         -- `self._queue.close()`               (enqueue only)
   | sinkStop           -- `self._sink.stop()`
   deriving DecidableEq, Repr
